@@ -241,3 +241,44 @@ func ResetClock() {
 	seq = 0
 	mu.Unlock()
 }
+
+// ---- mode B (single-threaded executions): blocking waits ----
+//
+// In mode B nothing but the code under test runs, so a blocking receive / select that waits for a timer of the virtual
+// clock would wait for ever: nobody else moves the clock. The transformer turns such waits into calls of the functions
+// below, which move the clock to the next armed timer while the communication is not ready ("sleep until something
+// happens"). With no timer armed the wait is a real one: the harness' hang watchdog decides.
+
+func advanceNext() bool {
+	t, ok := NextTimer()
+	if !ok {
+		return false
+	}
+	AdvanceTo(t)
+	return true
+}
+
+// Recv is `<-ch` of mode B.
+func Recv[T any](ch <-chan T) T { v, _ := Recv2(ch); return v }
+
+// Recv2 is `v, ok := <-ch` of mode B.
+func Recv2[T any](ch <-chan T) (T, bool) {
+	for {
+		select {
+		case v, ok := <-ch:
+			return v, ok
+		default:
+		}
+		if !advanceNext() {
+			v, ok := <-ch
+			return v, ok
+		}
+	}
+}
+
+// WaitExternal is what the retry clause of a blocking select of mode B calls when no communication is ready.
+func WaitExternal() {
+	if !advanceNext() {
+		time.Sleep(200 * time.Microsecond)
+	}
+}
